@@ -34,6 +34,9 @@ type DriverCfg struct {
 	Checksums  bool // supply (right and wrong) checksums
 	BigBodies  bool // multi-MiB bodies
 	BodySizes  []int
+	// BodyPool, when set, makes writes draw their body from this small shared
+	// pool (identical content across keys and clients => content dedup).
+	BodyPool [][]byte
 
 	// Oracles enables oracle groups; a violation is only raised by an enabled group.
 	Oracles map[string]bool
@@ -206,6 +209,9 @@ func ok(s string) storage.ObjectKey  { return storage.MustNewObjectKey(s) }
 // body makes a unique body of about n bytes.
 func (d *Driver) body(n int, g *sim.Tape) []byte {
 	d.opN++
+	if len(d.Cfg.BodyPool) > 0 {
+		return d.Cfg.BodyPool[g.Int(len(d.Cfg.BodyPool))]
+	}
 	head := []byte(fmt.Sprintf("<%d:%d>", d.opN, g.Int(1<<30)))
 	if n <= 0 {
 		return []byte{}
@@ -483,7 +489,10 @@ func (d *Driver) checkBuckets() *Violation {
 	}
 	var got []string
 	for _, b := range bs {
-		got = append(got, b.Name.String())
+		// other clients may own other buckets: only this driver's buckets are compared
+		if indexOfOK(d.Cfg.Buckets, b.Name.String()) {
+			got = append(got, b.Name.String())
+		}
 	}
 	sort.Strings(got)
 	want := d.M.BucketNames()
@@ -1418,4 +1427,13 @@ func (d *Driver) CheckAll() *Violation {
 		}
 	}
 	return nil
+}
+
+func indexOfOK(xs []string, x string) bool {
+	for _, v := range xs {
+		if v == x {
+			return true
+		}
+	}
+	return false
 }
